@@ -72,7 +72,8 @@ def atom_table(atoms):
         if u.label is not None:
             t[u.label] = (u.dim, u.mag)
     for stem in ("inches", "feet", "meters", "seconds", "kelvins", "radians", "degrees", "hertz", "grams", "yards", "miles",
-                 "nautical_miles", "minutes", "hours", "days", "revolutions", "arcminutes", "arcseconds", "fathoms", "furlongs"):
+                 "nautical_miles", "minutes", "hours", "days", "revolutions", "arcminutes", "arcseconds", "fathoms", "furlongs",
+                 "celsius", "fahrenheit", "bits", "bytes"):
         u = U[stem]
         t[u.label] = (u.dim, u.mag)
     kg = model.prefixed(model.SI_PREFIXES[9], U["grams"])
